@@ -32,7 +32,7 @@ ASSUMPTIONS = ['for md.Trajectory data the metric model is mdtraj.rmsd itself on
                'as tie-free (every farthest-point choice and stopping test unambiguous beyond 1e-6 relative)']
 REACH_EXPECTED = ['rmsd_trajectory_data', 'farthest_point_changed_owner', 'rank_with_single_frame', 'eager_root_ran_ahead',
                   'equal_length_group_on_rank', 'tie_free_equality_checked', 'kmedoids_stage_checked',
-                  'schedule_independence_checked', 'op_randind_empty_local', 'app_end_to_end', 'app_equals_serial', 'app_subsample', 'app_files_not_in_name_order', 'app_no_reassign_without_subsample', 'traj_app_end_to_end', 'traj_app_equals_serial', 'traj_app_subsample', 'traj_app_two_topologies', 'traj_app_three_groups', 'traj_app_group_without_centre', 'app_kmedoids_restart', 'app_kmedoids_restart_mpi']
+                  'schedule_independence_checked', 'op_randind_empty_local', 'app_end_to_end', 'app_equals_serial', 'app_subsample', 'app_files_not_in_name_order', 'app_no_reassign_without_subsample', 'traj_app_end_to_end', 'traj_app_equals_serial', 'traj_app_subsample', 'traj_app_two_topologies', 'traj_app_three_groups', 'traj_app_group_without_centre', 'app_kmedoids_restart', 'app_kmedoids_restart_mpi', 'app_features_as_glob_pattern']
 
 
 def scenario(ctx):
